@@ -53,7 +53,7 @@ STDLIB_AXIOMS = {
     "JMeq.JMeq_eq",
 }
 
-ENV = dict(os.environ, CARGO_NET_OFFLINE="true")
+ENV = dict(os.environ, CARGO_NET_OFFLINE="true", CARGO_TARGET_DIR=TARGET)
 
 
 def log(*a):
@@ -86,11 +86,15 @@ class Lock:
 
 def coq_build(targets):
     """full .vo build of the given targets (and what they depend on)"""
-    with Lock("coq"):
+    # the project file is regenerated under a short global lock; the build itself only takes a
+    # per-directory lock (targets of different properties do not interfere)
+    with Lock("coq-gen"):
         rc, out = run(["sh", "gen_project.sh"], cwd=COQ)
         if rc != 0:
             return False, out
-        rc, out = run(["make", "-j16"] + targets, cwd=COQ, timeout=3000)
+    key = "coq-" + (targets[0].split("/")[0] if targets else "all")
+    with Lock(key):
+        rc, out = run(["make", "-j8"] + targets, cwd=COQ, timeout=3000)
         return rc == 0, out
 
 
